@@ -9,6 +9,7 @@
 -/
 import PonyVerif.Lemmas.SessStoreOps
 import PonyVerif.Lemmas.SetCount
+import PonyVerif.Lemmas.KeyLookup
 namespace PonyVerif.Props.C10
 open PonyVerif.Model.SessStore
 
@@ -260,5 +261,155 @@ theorem C10_count_full_false_flush : ¬ C10_count_full (asFound true false) := b
   have := h [7] [.seen 7, .revRemove 7, .flush, .count] (by decide) (by decide)
     ⟨⟨[], false, some (-1), [], [7], [], false⟩, []⟩ [] [(-1, 0)] (by rfl) (-1, 0) (by simp)
   simp at this
+
+end PonyVerif.Props.C10
+
+/-! ## Part 3: lookups by a unique or composite key (Model/KeyLookup.lean) -/
+
+namespace PonyVerif.Props.C10
+open PonyVerif.Model.KeyLookup
+
+/-- `C10_cache_lookup` for the unique-key and composite-key shortcuts of `_find_in_cache_`: whenever the key index of the session
+    cache answers a lookup, then after a flush (when the database accepts it) the table holds the key in exactly one row, the row
+    of that object — the query `SELECT .. WHERE key = v` would return the same object. -/
+theorem C10_key_lookup (w w' : World) (h : Inv w) (v : KV) (i : Id) (hidx : w.idx v = some i) (hf : flush w = .ok w') :
+    (getBy w v) = (w, .found i) ∧ w'.rows i = some (some v) ∧ ∀ j, w'.rows j = some (some v) → j = i := by
+  obtain ⟨o, ho, ha, hk⟩ := (h.idxOk v i).mp hidx
+  obtain ⟨hi', hrows, _⟩ := flush_spec h hf
+  have hv : view w i = some (some v) := by unfold view; simp [ho, ha, hk]
+  refine ⟨by simp [getBy, hidx], by rw [hrows i, hv], fun j hj => hi'.uniq j i v hj (by rw [hrows i, hv])⟩
+
+/-- every lookup by key — answered by the index, or by the query after the implicit flush — returns what the program has:
+    `found i` only if the program's object `i` has the key, `notFound` only if no object of the program has it; the lookup does
+    not change what the program has and keeps the invariant -/
+theorem C10_getBy_sees_changes (w : World) (h : Inv w) (v : KV) :
+    (∀ i, (getBy w v).2 = .found i → view w i = some (some v)) ∧
+    ((getBy w v).2 = .notFound → ∀ i, view w i ≠ some (some v)) ∧
+    ((∀ e, (getBy w v).2 ≠ .error e) → Inv (getBy w v).1 ∧ ∀ j, view (getBy w v).1 j = view w j) := by
+  cases hidx : w.idx v with
+  | some i =>
+    obtain ⟨o, ho, ha, hk⟩ := (h.idxOk v i).mp hidx
+    have e : getBy w v = (w, .found i) := by simp [getBy, hidx]
+    rw [e]
+    refine ⟨?_, by simp, fun _ => ⟨h, fun _ => rfl⟩⟩
+    intro j hj; injection hj with hj; subst hj; unfold view; simp [ho, ha, hk]
+  | none =>
+    cases hf : flush w with
+    | error e =>
+      have e' : getBy w v = (w, .error e) := by simp [getBy, hidx, hf]
+      rw [e']; exact ⟨by simp, by simp, fun hne => absurd rfl (hne e)⟩
+    | ok w' =>
+      obtain ⟨hi', hrows, hview, _, hm', _⟩ := flush_spec h hf
+      have hmemq : ∀ i, i ∈ queryKey w' v ↔ view w i = some (some v) := by
+        intro i
+        unfold queryKey
+        simp only [List.mem_filter, decide_eq_true_eq]
+        rw [hrows i]
+        constructor
+        · exact fun hh => hh.2
+        · intro hh; exact ⟨hi'.cover i (by rw [hrows i, hh]; simp), hh⟩
+      cases hq : queryKey w' v with
+      | nil =>
+        have e' : getBy w v = (w', .notFound) := by simp [getBy, hidx, hf, hq]
+        rw [e']
+        refine ⟨by simp, fun _ i hi => ?_, fun _ => ⟨hi', hview⟩⟩
+        have := (hmemq i).mpr hi; rw [hq] at this; cases this
+      | cons i rest =>
+        cases rest with
+        | nil =>
+          have e' : getBy w v = fetch w' i := by simp [getBy, hidx, hf, hq]
+          rw [e']
+          obtain ⟨f1, f2, f3, _⟩ := fetch_spec hi' hm' i
+          have hvi : view w i = some (some v) := (hmemq i).mp (by rw [hq]; simp)
+          have hvi' : view w' i = some (some v) := by rw [hview i, hvi]
+          rw [hvi'] at f1
+          refine ⟨?_, by rw [f1]; simp, fun _ => ⟨f2, fun j => (f3 j).trans (hview j)⟩⟩
+          intro j hj; rw [f1] at hj; injection hj with hj; subst hj; exact hvi
+        | cons i2 rest2 =>
+          have e' : getBy w v = (w', .error .multiple) := by simp [getBy, hidx, hf, hq]
+          rw [e']; exact ⟨by simp, by simp, fun hne => absurd rfl (hne _)⟩
+
+/-- the same for `E[pk]` in this model (pk index first, `marked_to_delete` → ObjectNotFound, else flush + SELECT) -/
+theorem C10_loadPk_sees_changes (w : World) (h : Inv w) (i : Id) :
+    ((loadPk w i).2 = .found i → (view w i).isSome = true) ∧
+    ((loadPk w i).2 = .notFound → view w i = none) ∧
+    ((∀ e, (loadPk w i).2 ≠ .error e) → Inv (loadPk w i).1 ∧ ∀ j, view (loadPk w i).1 j = view w j) := by
+  have viaDb : ((loadPk.viaDb w i).2 = .found i → (view w i).isSome = true) ∧
+      ((loadPk.viaDb w i).2 = .notFound → view w i = none) ∧
+      ((∀ e, (loadPk.viaDb w i).2 ≠ .error e) → Inv (loadPk.viaDb w i).1 ∧ ∀ j, view (loadPk.viaDb w i).1 j = view w j) := by
+    unfold loadPk.viaDb
+    cases hf : flush w with
+    | error e => exact ⟨by simp, by simp, fun hne => absurd rfl (hne e)⟩
+    | ok w' =>
+      obtain ⟨hi', _, hview, _, hm', _⟩ := flush_spec h hf
+      obtain ⟨f1, f2, f3, _⟩ := fetch_spec hi' hm' i
+      simp only []
+      rw [f1, hview i]
+      refine ⟨?_, ?_, fun _ => ⟨f2, fun j => (f3 j).trans (hview j)⟩⟩
+      · cases view w i <;> simp
+      · cases view w i <;> simp
+  unfold loadPk
+  cases ho : w.objs i with
+  | none => exact viaDb
+  | some o =>
+    by_cases hg : o.st = .gone
+    · simp only [hg, if_true]; exact viaDb
+    · simp only [hg, if_false]
+      by_cases hmk : o.st = .marked
+      · simp only [hmk, if_true]
+        exact ⟨by simp, fun _ => by unfold view; simp [ho, hmk, St.alive], fun _ => ⟨h, fun _ => trivial⟩⟩
+      · simp only [hmk, if_false]
+        have ha : o.st.alive = true := by cases hs : o.st <;> simp [hs, St.alive] at hg hmk ⊢
+        exact ⟨fun _ => by unfold view; simp [ho, ha], by simp, fun _ => ⟨h, fun _ => trivial⟩⟩
+
+/-- every call of a well-formed program that does not end the session with a database error keeps the invariant -/
+theorem C10_key_step_inv (w : World) (h : Inv w) (op : Op) (hok : OpOk w op) (hne : ∀ e, (step w op).2 ≠ .error e) :
+    Inv (step w op).1 := by
+  cases op with
+  | create i kv => exact create_inv h i kv hok
+  | setKey i kv => exact setKey_inv h i kv
+  | delete i => exact delete_inv h i
+  | loadPk i => exact ((C10_loadPk_sees_changes w h i).2.2 hne).1
+  | getBy v => exact ((C10_getBy_sees_changes w h v).2.2 hne).1
+  | flush =>
+    simp only [step] at hne ⊢
+    cases hf : flush w with
+    | error e => rw [hf] at hne; exact absurd rfl (hne e)
+    | ok w' => exact (flush_spec h hf).1
+  | newSession =>
+    simp only [step] at hne ⊢
+    cases hf : flush w with
+    | error e => rw [hf] at hne; exact absurd rfl (hne e)
+    | ok w' =>
+      obtain ⟨hi', _, _, _, hm', _⟩ := flush_spec h hf
+      simp only []
+      refine ⟨?_, hi'.cover, ?_, ?_, ?_, hi'.uniq⟩ <;> simp
+
+/-- the states a well-formed program can reach from a table that satisfies its UNIQUE constraint -/
+inductive Reachable (w0 : World) : World → Prop
+  | start : Reachable w0 w0
+  | step (w : World) (op : Op) : Reachable w0 w → OpOk w op → (∀ e, (step w op).2 ≠ .error e) → Reachable w0 (step w op).1
+
+/-- For ALL histories: in every state a well-formed program reaches — whatever it created, re-keyed, deleted, flushed or loaded,
+    over any number of sessions — a lookup by unique / composite key and a lookup by primary key return what the program has. -/
+theorem C10_key_reads_all_histories (ids : List Id) (rows : Id → Option (Option KV))
+    (hc : ∀ i, rows i ≠ none → i ∈ ids) (hu : ∀ i j v, rows i = some (some v) → rows j = some (some v) → i = j)
+    (w : World) (hr : Reachable (World.init ids rows) w) (v : KV) :
+    (∀ i, (getBy w v).2 = .found i → view w i = some (some v)) ∧
+    ((getBy w v).2 = .notFound → ∀ i, view w i ≠ some (some v)) := by
+  have hinv : Inv w := by
+    induction hr with
+    | start => exact inv_init ids rows hc hu
+    | step w op _ hok hne ih => exact C10_key_step_inv w ih op hok hne
+  exact ⟨(C10_getBy_sees_changes w hinv v).1, (C10_getBy_sees_changes w hinv v).2.1⟩
+
+/-- non-trivial instance: a committed object with key [1] is re-keyed to [2] (unflushed), a new object takes key [1]; the index
+    answers both lookups without a query, `[3]` is answered `notFound` after the implicit flush; a clash with a row that is not
+    loaded is refused by the database at the flush -/
+example : (run (World.init [7, 8] (fun i => if i = 7 then some (some [1]) else if i = 8 then some (some [5]) else none))
+    [.loadPk 7, .setKey 7 (some [2]), .create 9 (some [1]), .getBy [1], .getBy [2], .getBy [3], .getBy [5], .delete 8, .getBy [5]]).2
+    = [.found 7, .ok, .ok, .found 9, .found 7, .notFound, .found 8, .ok, .notFound] := by decide
+example : (run (World.init [7, 8] (fun i => if i = 7 then some (some [1]) else if i = 8 then some (some [5]) else none))
+    [.loadPk 7, .setKey 7 (some [5]), .getBy [5], .flush]).2 = [.found 7, .ok, .found 7, .error .uniqueViolation] := by decide
 
 end PonyVerif.Props.C10
